@@ -281,7 +281,7 @@ func aesCTS(key, data []byte, enc bool) ([]byte, error) {
 		cipher.NewCBCEncrypter(blk, iv).CryptBlocks(ct, padded)
 		out := make([]byte, 0, n)
 		out = append(out, ct[:(nb-2)*16]...)
-		out = append(out, ct[(nb-1)*16:nb*16]...)         // last CBC block goes second to last
+		out = append(out, ct[(nb-1)*16:nb*16]...)       // last CBC block goes second to last
 		out = append(out, ct[(nb-2)*16:(nb-2)*16+d]...) // truncated second-to-last goes last
 		return out, nil
 	}
@@ -508,6 +508,34 @@ func Encrypt(et int32, key []byte, usage uint32, plaintext, confounder []byte) (
 		return append(cks, rc4Crypt(k3, msg)...), nil
 	}
 	return nil, fmt.Errorf("ref: unsupported etype %d", et)
+}
+
+// SealShort builds messages whose integrity tag is correct although the protected part is shorter than a
+// confounder - something only a holder of the key can produce, and every client holds the key its own
+// authenticator is sealed with. For rc4-hmac the protected part is msg as given (any length, nothing prepended);
+// for the SHA-2 etypes, whose tag covers the ciphertext, msg is taken as the ciphertext itself (any length);
+// for the other etypes no such message exists and an error is returned.
+func SealShort(et int32, key []byte, usage uint32, msg []byte) ([]byte, error) {
+	if len(key) != KeyLen(et) {
+		return nil, fmt.Errorf("ref: key length %d for etype %d", len(key), et)
+	}
+	switch et {
+	case RC4:
+		k1 := hmacMD5(key, le32(RC4Usage(usage)))
+		cks := hmacMD5(k1, msg)
+		k3 := hmacMD5(k1, cks)
+		return append(cks, rc4Crypt(k3, msg)...), nil
+	case AES128SHA2, AES256SHA2:
+		ki, err := DeriveUsageKey(et, key, usage, 0x55)
+		if err != nil {
+			return nil, err
+		}
+		m := hmac.New(hashFor(et), ki)
+		m.Write(make([]byte, 16))
+		m.Write(msg)
+		return append(append([]byte{}, msg...), m.Sum(nil)[:MACLen(et)]...), nil
+	}
+	return nil, fmt.Errorf("ref: no short sealed message exists for etype %d", et)
 }
 
 // ErrIntegrity is returned when the integrity tag does not verify.
